@@ -79,9 +79,10 @@ def blocks_from_vector(vec, configs, codemap="ascii", define_only=False, mems=(0
         # C10: both strictness levels, each followed by a parse that must be refused when the definition failed
         for strict, d in ((1, ds), (0, dn)):
             lines.append("D %d %s" % (strict, ",".join(map(str, d)) if d else "0"))
-            lines.append("W probe 1 %d" % code(terms[0]))
-            lines.append("X sent=-1")
-            lines.append("P 1 1 0 1 3 0 1")
+            if d:   # a failed definition leaves an object that refuses to parse
+                lines.append("W probe 1 %d" % code(terms[0]))
+                lines.append("X sent=-1")
+                lines.append("P 1 1 0 1 3 0 1")
         return lines
     if dn:
         return None
